@@ -155,7 +155,8 @@ Aliasing(ms, loc, n, Q, cf) ==
   ELSE LET i0 == PIdx(ms.map, loc)
            i  == IF i0 > 0 /\ "AliasKeySize" \notin Q /\ Len(ms.map[i0].val) < n THEN 0 ELSE i0
            N  == ms.lastw
-           lo == IF "FaultAliasLastOnly" \in Q THEN MinI(N, Len(ms.map)) ELSE i + 1   \* seeded fault (self-test)
+           lo == IF "FaultAliasLastOnly" \in Q /\ MinI(N, Len(ms.map)) > i + 1
+                 THEN MinI(N, Len(ms.map)) ELSE i + 1                                  \* seeded fault (self-test)
        IN IF \E j \in lo..MinI(N, Len(ms.map)) : ms.map[j].ptr /\ ms.map[j].loc.b # loc.b
           THEN N ELSE 0
 
